@@ -10,6 +10,7 @@ import (
 	"fmt"
 	"io"
 	"os"
+	"runtime"
 	"strings"
 	"unsafe"
 
@@ -198,6 +199,26 @@ func Steps() uint64                         { return 0 }
 func PoolPolicy(s string)                   {}
 func Note(s string)                         {}
 func Phase(s string)                        {}
+
+var poisonSink [][]byte
+
+// PoisonHeap leaves recently used non-zero memory on the allocator's free lists so that reads of
+// uninitialised memory (mallocgc without zeroing) are observable natively. Only used by native replay.
+func PoisonHeap() {
+	for round := 0; round < 2; round++ {
+		for _, sz := range []int{8, 16, 24, 32, 48, 64, 96, 128, 192, 256, 384, 512, 1024, 2048, 2688, 3072, 4096, 8192} {
+			for i := 0; i < 256; i++ {
+				b := make([]byte, sz)
+				for j := range b {
+					b[j] = 0xA5
+				}
+				poisonSink = append(poisonSink, b)
+			}
+		}
+		poisonSink = nil
+		runtime.GC()
+	}
+}
 
 // Param: per-job integer parameter (engine: job cfg; native: VERIF_PARAM_<name>).
 func Param(name string) int {
